@@ -233,7 +233,7 @@ fn random_name(rng: &mut Rng, n: usize) -> String {
 }
 
 fn cli_block(ctx: &Ctx) {
-    let n = ctx.tier.pick(10, 400);
+    let n = ctx.tier.pick(12, 400);
     par_for(n, crate::util::ncpu(), |i| {
         let mut rng = Rng::fork(ctx.seed, &format!("C08-cli-{}", i));
         let wd = WorkDir::new("c08");
@@ -255,7 +255,12 @@ fn cli_block(ctx: &Ctx) {
                     stale.extend_from_slice(&again);
                 }
                 wd.write("c.ktl", &stale);
-                let mut o = Cmd::new(&wd.path, &["encrypt", "p.bin", "-t", &names[to], "-f", &names[from], "-k", kr, "-o", "c.ktl", "--env-pass"]).pass("pw").run();
+                // ... with the plaintext given as a FILE argument, on stdin, or as the path /dev/stdin (rotating)
+                let mut o = match (i / 4) % 3 {
+                    0 => Cmd::new(&wd.path, &["encrypt", "p.bin", "-t", &names[to], "-f", &names[from], "-k", kr, "-o", "c.ktl", "--env-pass"]).pass("pw").run(),
+                    1 => Cmd::new(&wd.path, &["encrypt", "-t", &names[to], "-f", &names[from], "-k", kr, "-o", "c.ktl", "--env-pass"]).pass("pw").stdin(Stdin::Bytes(pt.clone())).run(),
+                    _ => Cmd::new(&wd.path, &["encrypt", "/dev/stdin", "-t", &names[to], "-f", &names[from], "-k", kr, "-o", "c.ktl", "--env-pass"]).pass("pw").stdin(Stdin::Bytes(pt.clone())).run(),
+                };
                 o.stdout = std::fs::read(wd.file("c.ktl")).unwrap_or_default();
                 ctx.seen("cli: file left at an output path that held identity-bearing content");
                 o
